@@ -2,20 +2,49 @@
   Authenticity as a reduction (behind Props/C02, C04, C06): whatever packets a
   receiver is given, what it releases is a prefix of one plaintext an honest
   sender put into one message with this very header hash — complete iff the run
-  ends cleanly — OR a concrete primitive-level break is exhibited by that very
-  run: a MAC / signature that verifies on an input the honest party never
-  authenticated under that key, or two different strings with the same hash.
-  Nothing about the strength of the primitives is assumed; `Break` is a
-  disjunct, not an axiom, so the statements hold for every `Prims`.
+  ends cleanly — OR a concrete primitive-level break is exhibited BY THAT VERY
+  RUN.
+
+  The break predicates (`AuthEnc.BreakIn`, `AuthSc.BreakIn`, `AuthSig.BreakIn`)
+  are ANCHORED to the run: they take the receiver state `s` and the packet list
+  `items` and say
+
+    * forgery: the run over `items` reached its `i`-th packet `b` (every earlier
+      item was a packet accepted at its position and not final — `Reaches`),
+      ACCEPTED it as packet number `i + 1`, the MAC / signature the receiver
+      checked on it is spelled out, and no honest sender ever authenticated
+      that very input (under that key);
+    * collision: the hash input the receiver computed for such a reached and
+      accepted packet `b` of the run, and the hash input of a chunk of an honest
+      message in `H`, are two DIFFERENT explicit strings with the same hash.
+
+  Nothing about the strength of the primitives is assumed; `BreakIn` is a
+  disjunct, not an axiom, so the statements hold for every `Prims`.  That the
+  disjunct is not always true is machine-checked at the end of this file: for a
+  concrete honest two-packet run of each mode `¬ BreakIn` is proved, and a
+  tampered run of each mode is shown to fall under the first disjunct.
+
+  (History: an earlier version of this file used un-anchored existentials
+   `MacForgery P s H := ∃ b ph, b.auths[s.position]? = some (payloadAuthenticator P s.macKey ph) ∧ ¬ HonestlyMACed …`,
+   `SigForgery P spk H := ∃ inp sig, P.verify spk inp sig = true ∧ ¬ HonestlySigned …`,
+   `HashCollision P := ∃ x y, x ≠ y ∧ P.hash x = P.hash y`.
+   An audit observed that these are provable outright, so the old third disjunct
+   was vacuous:
+     -- theorem old_MacForgery_trivial (P s H) (ph) (h : ¬ HonestlyMACed P s.version H s.macKey ph) :
+     --     MacForgery P s H :=
+     --   ⟨⟨List.replicate (s.position + 1) (payloadAuthenticator P s.macKey ph), [], false⟩, ph, by simp, h⟩
+     -- theorem old_SigForgery_trivial (P) (hP : P.Lawful) (seed H) (inp) (h : ¬ HonestlySigned P H inp) :
+     --     SigForgery P (P.sigPub seed) H := ⟨inp, P.sign seed inp, hP.verify_sign seed inp, h⟩
+     -- theorem old_HashCollision_trivial (P) (hP : P.Lawful) : HashCollision P :=
+     --   pigeonhole: 256^64 + 1 distinct inputs, all hashes have length 64 (hP.hash_len)
+   The old definitions are deleted; nothing else used them.)
 -/
 import Saltpack.Proofs.Receiver
 import Saltpack.Proofs.ChunkPlan
+import Saltpack.Toy
 
 namespace Saltpack.Proofs
 open Saltpack
-
-/-- two different strings with the same hash -/
-def HashCollision (P : Prims) : Prop := ∃ x y : Bytes, x ≠ y ∧ P.hash x = P.hash y
 
 /-- the first `m` chunks of a plan, concatenated -/
 def planPrefix (plan : List (Bytes × Bool)) (m : Nat) : Bytes := ((plan.take m).map (·.1)).flatten
@@ -24,23 +53,96 @@ def planPrefix (plan : List (Bytes × Bool)) (m : Nat) : Bytes := ((plan.take m)
 def PlanOK (plan : List (Bytes × Bool)) : Prop :=
   ∃ pre c, plan = pre ++ [(c, true)] ∧ ∀ p ∈ pre, p.2 = false
 
+/-! ## anchoring a packet to a run -/
+section anchor
+variable {β : Type}
+
+/-- **The run over `items` reaches its `i`-th item (0-based), and that item is
+    the packet `b`**: every earlier item is a packet that was accepted at its
+    position (packet numbers count from 1) and was not final.  By the shape of
+    the chunk-reader run this is exactly the condition under which the receiver
+    applies its acceptance test to `b` with packet number `i + 1`. -/
+def Reaches (acc : β → Nat → Option Bytes) (fin : β → Bool) (items : List (Option β)) (i : Nat) (b : β) : Prop :=
+  items[i]? = some (some b) ∧
+    ∀ j, j < i → ∃ b' c', items[j]? = some (some b') ∧ acc b' (j + 1) = some c' ∧ fin b' = false
+
+theorem Reaches.lt {acc : β → Nat → Option Bytes} {fin : β → Bool} {items : List (Option β)} {i : Nat} {b : β}
+    (h : Reaches acc fin items i b) : i < items.length :=
+  (List.getElem?_eq_some_iff.1 h.1).1
+
+theorem Reaches.mem {acc : β → Nat → Option Bytes} {fin : β → Bool} {items : List (Option β)} {i : Nat} {b : β}
+    (h : Reaches acc fin items i b) : some b ∈ items :=
+  List.mem_of_getElem? h.1
+
+end anchor
+
 /-! ## the crypto-free core: chains against a plan -/
 section core
 variable {β : Type} {acc : β → Nat → Option Bytes} {fin : β → Bool}
 
-/-- along a chain whose every accepted block matches the plan entry at its
-    position (or exhibits `Brk`), the blocks spell out a segment of the plan -/
-theorem Chain.plan_segment (plan : List (Bytes × Bool)) (Brk : Prop) (N : Nat)
-    (hm : ∀ b n c, 1 ≤ n → n ≤ N → acc b n = some c → Brk ∨ plan[n - 1]? = some (c, fin b))
+/-- every block of a chain is accepted at its position, and all but the last are
+    not final -/
+theorem Chain.get {n : Nat} {bs : List β} {out : Bytes} (hc : Chain acc fin n bs out) :
+    ∀ (j : Nat) (b : β), bs[j]? = some b → (∃ c, acc b (n + j) = some c) ∧ (j + 1 < bs.length → fin b = false) := by
+  induction hc with
+  | nil n => intro j b h; simp at h
+  | last n b c ha =>
+    intro j b' h
+    cases j with
+    | zero =>
+      simp only [List.getElem?_cons_zero, Option.some.injEq] at h
+      subst h
+      exact ⟨⟨c, ha⟩, fun h => by simp at h⟩
+    | succ j => simp at h
+  | cons n b c bs r ha hf hne _ ih =>
+    intro j b' h
+    cases j with
+    | zero =>
+      simp only [List.getElem?_cons_zero, Option.some.injEq] at h
+      subst h
+      exact ⟨⟨c, ha⟩, fun _ => hf⟩
+    | succ j =>
+      simp only [List.getElem?_cons_succ] at h
+      obtain ⟨⟨c', hc'⟩, hf'⟩ := ih j b' h
+      refine ⟨⟨c', ?_⟩, fun hl => hf' (by simpa using hl)⟩
+      rw [show n + (j + 1) = n + 1 + j by omega]
+      exact hc'
+
+/-- the blocks of an accepted chain that is a prefix of the items are reached by
+    the run over the items -/
+theorem reaches_of_chain {items : List (Option β)} {bs : List β} {out : Bytes}
+    (hp : bs.map some <+: items) (hc : Chain acc fin 1 bs out) (j : Nat) (b : β) (hb : bs[j]? = some b) :
+    Reaches acc fin items j b := by
+  have hget : ∀ (k : Nat) (b' : β), bs[k]? = some b' → items[k]? = some (some b') := by
+    intro k b' hk
+    obtain ⟨t, rfl⟩ := hp
+    have hlt : k < (bs.map some).length := by
+      rw [List.length_map]; exact (List.getElem?_eq_some_iff.1 hk).1
+    rw [List.getElem?_append_left hlt, List.getElem?_map, hk]
+    rfl
+  refine ⟨hget j b hb, fun k hk => ?_⟩
+  have hjl : j < bs.length := (List.getElem?_eq_some_iff.1 hb).1
+  have hkl : k < bs.length := by omega
+  obtain ⟨⟨c', hc'⟩, hf⟩ := hc.get k bs[k] (List.getElem?_eq_getElem hkl)
+  refine ⟨bs[k], c', hget k _ (List.getElem?_eq_getElem hkl), ?_, hf (by omega)⟩
+  rw [Nat.add_comm]
+  exact hc'
+
+/-- along a chain whose every accepted block — known to satisfy `R` at its
+    position — matches the plan entry at its position (or exhibits `Brk`), the
+    blocks spell out a segment of the plan -/
+theorem Chain.plan_segment (plan : List (Bytes × Bool)) (Brk : Prop) (R : β → Nat → Prop)
+    (hm : ∀ b n c, 1 ≤ n → R b n → acc b n = some c → Brk ∨ plan[n - 1]? = some (c, fin b))
     {n : Nat} {bs : List β} {out : Bytes} (hc : Chain acc fin n bs out)
-    (h1 : 1 ≤ n) (hN : n + bs.length ≤ N + 1) :
+    (hR : ∀ (j : Nat) (b : β), bs[j]? = some b → R b (n + j))
+    (h1 : 1 ≤ n) :
     Brk ∨ ∃ mid : List (Bytes × Bool), mid.length = bs.length ∧ mid <+: plan.drop (n - 1) ∧
       out = (mid.map (·.1)).flatten ∧
       (∀ b, bs.getLast? = some b → ∃ p, mid.getLast? = some p ∧ p.2 = fin b) := by
   induction hc with
   | nil n => exact Or.inr ⟨[], rfl, List.nil_prefix, rfl, by simp⟩
   | last n b c ha =>
-    rcases hm b n c h1 (by simp at hN; omega) ha with hb | hp
+    rcases hm b n c h1 (hR 0 b rfl) ha with hb | hp
     · exact Or.inl hb
     · refine Or.inr ⟨[(c, fin b)], rfl, ?_, by simp, ?_⟩
       · obtain ⟨hlt, hget⟩ := List.getElem?_eq_some_iff.1 hp
@@ -48,10 +150,13 @@ theorem Chain.plan_segment (plan : List (Bytes × Bool)) (Brk : Prop) (N : Nat)
         exact ⟨_, rfl⟩
       · intro b' hb'; simp at hb'; subst hb'; exact ⟨_, rfl, rfl⟩
   | cons n b c bs r ha hf hne _ ih =>
-    simp only [List.length_cons] at hN
-    rcases hm b n c h1 (by omega) ha with hb | hp
+    rcases hm b n c h1 (hR 0 b rfl) ha with hb | hp
     · exact Or.inl hb
-    · rcases ih (by omega) (by omega) with hb | ⟨mid, hl, hpre, hout, hlast⟩
+    · have hR' : ∀ (j : Nat) (b' : β), bs[j]? = some b' → R b' (n + 1 + j) := by
+        intro j b' hj
+        have := hR (j + 1) b' (by simpa using hj)
+        rwa [show n + (j + 1) = n + 1 + j by omega] at this
+      rcases ih hR' (by omega) with hb | ⟨mid, hl, hpre, hout, hlast⟩
       · exact Or.inl hb
       · refine Or.inr ⟨(c, fin b) :: mid, by simp [hl], ?_, by simp [hout], ?_⟩
         · obtain ⟨hlt, hget⟩ := List.getElem?_eq_some_iff.1 hp
@@ -65,13 +170,6 @@ theorem Chain.plan_segment (plan : List (Bytes × Bool)) (Brk : Prop) (N : Nat)
           obtain ⟨p, hp1, hp2⟩ := hlast b' hb'
           have hmne : mid ≠ [] := by intro h0; rw [h0] at hp1; simp at hp1
           exact ⟨p, by rw [List.getLast?_cons_of_ne_nil hmne]; exact hp1, hp2⟩
-
-theorem Chain.head_acc {n : Nat} {bs : List β} {out : Bytes} (hc : Chain acc fin n bs out)
-    (hne : bs ≠ []) : ∃ b c, acc b n = some c := by
-  induction hc with
-  | nil n => exact absurd rfl hne
-  | last n b c ha => exact ⟨b, c, ha⟩
-  | cons n b c _ _ ha => exact ⟨b, c, ha⟩
 
 /-- a prefix of a well-formed plan that ends in a final entry is the whole plan -/
 theorem PlanOK.prefix_final {plan mid : List (Bytes × Bool)} (hp : PlanOK plan) (hpre : mid <+: plan)
@@ -94,70 +192,67 @@ theorem planPrefix_of_prefix {plan mid : List (Bytes × Bool)} (hpre : mid <+: p
 
 end core
 
-/-- the common end game of the three reductions: per-block matching against
-    the plan of an honest event with the receiver's header hash, events being
-    determined by their header hash, gives the prefix / completeness statement -/
+/-- the common end game of the three reductions.  `M e`: the honest event `e`
+    matches the receiver (same header hash, …).  Per-packet matching is only
+    asked of packets the run REACHES and accepts (`hm`), so the `Brk` a packet
+    may exhibit instead can mention that anchoring. -/
 theorem assemble {β E : Type} {acc : β → Nat → Option Bytes} {fin : β → Bool}
-    (H : List E) (hh : E → Bytes) (planOf : E → List (Bytes × Bool)) (shh : Bytes) (Brk : Prop) (N : Nat)
-    (hplan : ∀ e ∈ H, PlanOK (planOf e))
-    (hone : ∀ e ∈ H, ∀ e' ∈ H, hh e = hh e' → e = e')
-    (hm : ∀ b n c, 1 ≤ n → n ≤ N → acc b n = some c →
-      Brk ∨ ∃ e ∈ H, hh e = shh ∧ (planOf e)[n - 1]? = some (c, fin b))
+    (items : List (Option β)) (H : List E) (M : E → Prop) (planOf : E → List (Bytes × Bool)) (Brk : Prop)
+    (hplan : ∀ e ∈ H, M e → PlanOK (planOf e))
+    (hone : ∀ e ∈ H, ∀ e' ∈ H, M e → M e' → e = e')
+    (hm : ∀ i b c, Reaches acc fin items i b → acc b (i + 1) = some c →
+      Brk ∨ ∃ e ∈ H, M e ∧ (planOf e)[i]? = some (c, fin b))
     (bytes : Bytes) (err : Option Err)
-    (hpre : ∃ bs, bs.length ≤ N ∧ Chain acc fin 1 bs bytes)
-    (hok : err = none → ∃ bs, bs.length ≤ N ∧ Complete acc fin 1 bs bytes) :
+    (hpre : ∃ bs, bs.map some <+: items ∧ Chain acc fin 1 bs bytes)
+    (hok : err = none → ∃ bs, bs.map some <+: items ∧ Complete acc fin 1 bs bytes) :
     bytes = [] ∧ err ≠ none ∨
-    (∃ e ∈ H, hh e = shh ∧ ∃ m, m ≤ (planOf e).length ∧ bytes = planPrefix (planOf e) m ∧
+    (∃ e ∈ H, M e ∧ ∃ m, m ≤ (planOf e).length ∧ bytes = planPrefix (planOf e) m ∧
         (err = none → m = (planOf e).length)) ∨
     Brk := by
   -- the core: a non-empty chain pins one event and a prefix of its plan
-  have core : ∀ bs : List β, bs ≠ [] → bs.length ≤ N → Chain acc fin 1 bs bytes →
-      Brk ∨ ∃ e ∈ H, hh e = shh ∧ ∃ mid : List (Bytes × Bool), mid <+: planOf e ∧
+  have core : ∀ bs : List β, bs ≠ [] → bs.map some <+: items → Chain acc fin 1 bs bytes →
+      Brk ∨ ∃ e ∈ H, M e ∧ ∃ mid : List (Bytes × Bool), mid <+: planOf e ∧
         bytes = (mid.map (·.1)).flatten ∧
         (∀ b, bs.getLast? = some b → ∃ p, mid.getLast? = some p ∧ p.2 = fin b) := by
-    intro bs hne hlen hc
-    have hfirst : ∃ b c, acc b 1 = some c := Chain.head_acc hc hne
-    obtain ⟨b0, c0, ha0⟩ := hfirst
-    have hN1 : 1 ≤ N := by
-      cases bs with
-      | nil => exact absurd rfl hne
-      | cons _ _ => simp at hlen; omega
-    rcases hm b0 1 c0 (Nat.le_refl 1) hN1 ha0 with hb | ⟨e, he, hhe, _⟩
+    intro bs hne hp hc
+    obtain ⟨b0, t, hbs⟩ := List.exists_cons_of_ne_nil hne
+    have hb0 : bs[0]? = some b0 := by rw [hbs]; rfl
+    obtain ⟨⟨c0, ha0⟩, _⟩ := hc.get 0 b0 hb0
+    rcases hm 0 b0 c0 (reaches_of_chain hp hc 0 b0 hb0) ha0 with hb | ⟨e, he, hMe, _⟩
     · exact Or.inl hb
-    · have hm' : ∀ b n c, 1 ≤ n → n ≤ N → acc b n = some c →
+    · have hm' : ∀ b n c, 1 ≤ n → Reaches acc fin items (n - 1) b → acc b n = some c →
           Brk ∨ (planOf e)[n - 1]? = some (c, fin b) := by
-        intro b n c h1 hn ha
-        rcases hm b n c h1 hn ha with hb | ⟨e', he', hhe', hp⟩
+        intro b n c h1 hr ha
+        rcases hm (n - 1) b c hr (by rw [Nat.sub_add_cancel h1]; exact ha) with hb | ⟨e', he', hMe', hp⟩
         · exact Or.inl hb
-        · have : e' = e := hone e' he' e he (by rw [hhe', hhe])
+        · have : e' = e := hone e' he' e he hMe' hMe
           rw [this] at hp
           exact Or.inr hp
-      rcases Chain.plan_segment (planOf e) Brk N hm' hc (Nat.le_refl 1) (by omega) with hb | ⟨mid, _, hpre, hout, hlast⟩
+      have hR : ∀ (j : Nat) (b : β), bs[j]? = some b → Reaches acc fin items (1 + j - 1) b := by
+        intro j b hb
+        rw [Nat.add_sub_cancel_left]
+        exact reaches_of_chain hp hc j b hb
+      rcases Chain.plan_segment (planOf e) Brk (fun b n => Reaches acc fin items (n - 1) b) hm' hc hR
+        (Nat.le_refl 1) with hb | ⟨mid, _, hpre, hout, hlast⟩
       · exact Or.inl hb
-      · exact Or.inr ⟨e, he, hhe, mid, by simpa using hpre, hout, hlast⟩
+      · exact Or.inr ⟨e, he, hMe, mid, by simpa using hpre, hout, hlast⟩
   by_cases herr : err = none
-  · obtain ⟨bs, hlen, hc, b, hb, hfb⟩ := hok herr
+  · obtain ⟨bs, hp, hc, b, hb, hfb⟩ := hok herr
     have hne : bs ≠ [] := by intro h0; rw [h0] at hb; simp at hb
-    rcases core bs hne hlen hc with hbk | ⟨e, he, hhe, mid, hpre, hout, hlast⟩
+    rcases core bs hne hp hc with hbk | ⟨e, he, hMe, mid, hpre, hout, hlast⟩
     · exact Or.inr (Or.inr hbk)
     · obtain ⟨p, hp1, hp2⟩ := hlast b hb
-      refine Or.inr (Or.inl ⟨e, he, hhe, mid.length, hpre.length_le, ?_, fun _ => ?_⟩)
+      refine Or.inr (Or.inl ⟨e, he, hMe, mid.length, hpre.length_le, ?_, fun _ => ?_⟩)
       · rw [planPrefix_of_prefix hpre]; exact hout
-      · exact PlanOK.prefix_final (hplan e he) hpre hp1 (by rw [hp2, hfb])
-  · obtain ⟨bs, hlen, hc⟩ := hpre
+      · exact PlanOK.prefix_final (hplan e he hMe) hpre hp1 (by rw [hp2, hfb])
+  · obtain ⟨bs, hp, hc⟩ := hpre
     by_cases hne : bs = []
     · subst hne
       exact Or.inl ⟨Chain.out_of_nil hc, herr⟩
-    · rcases core bs hne hlen hc with hbk | ⟨e, he, hhe, mid, hpre, hout, _⟩
+    · rcases core bs hne hp hc with hbk | ⟨e, he, hMe, mid, hpre, hout, _⟩
       · exact Or.inr (Or.inr hbk)
-      · refine Or.inr (Or.inl ⟨e, he, hhe, mid.length, hpre.length_le, ?_, fun h => absurd h herr⟩)
+      · refine Or.inr (Or.inl ⟨e, he, hMe, mid.length, hpre.length_le, ?_, fun h => absurd h herr⟩)
         rw [planPrefix_of_prefix hpre]; exact hout
-
-theorem prefix_map_some_length {β : Type} {bs : List β} {items : List (Option β)}
-    (h : bs.map some <+: items) : bs.length ≤ items.length := by
-  have := h.length_le
-  simpa using this
-
 
 /-! ## nonce lengths -/
 
@@ -185,122 +280,171 @@ structure Event where
 
 variable (P : Prims)
 
-/-- what the honest sender MACs for chunk `k` of event `e` (version of the receiver) -/
+/-- what the honest sender hashes (and then MACs) for chunk `k` of event `e`
+    (in the receiver's version) -/
 def honestInput (v : Version) (e : Event) (k : Nat) (c : Bytes) (f : Bool) : Bytes :=
   if v.major = 1 then e.headerHash ++ Nonce.chunkSecretBox k ++ P.sbSeal e.payloadKey (Nonce.chunkSecretBox k) c
   else e.headerHash ++ Nonce.chunkSecretBox k ++ finalByte f ++ P.sbSeal e.payloadKey (Nonce.chunkSecretBox k) c
+
+/-- what the RECEIVER hashes for packet `b` taken as its `i`-th payload packet
+    (0-based; packet number `i + 1`): header hash ‖ nonce(i) ‖ [final byte] ‖ ciphertext -/
+def recvInput (s : Decrypt.State) (b : EncBlock) (i : Nat) : Bytes :=
+  if s.version.major = 1 then s.headerHash ++ Nonce.chunkSecretBox i ++ b.ct
+  else s.headerHash ++ Nonce.chunkSecretBox i ++ finalByte (Decrypt.blockFinal s.version b) ++ b.ct
+
+/-- `recvInput` is what `computePayloadHash` hashes (majors 1 and 2) -/
+theorem payloadHash_recv (s : Decrypt.State) (hv : s.version.major = 1 ∨ s.version.major = 2)
+    (b : EncBlock) (i : Nat) :
+    payloadHash P s.version s.headerHash (Nonce.chunkSecretBox i) b.ct (Decrypt.blockFinal s.version b)
+      = .ok (P.hash (recvInput s b i)) := by
+  unfold payloadHash recvInput
+  rcases hv with hv | hv
+  · simp only [hv, if_true]
+  · have h21 : ¬ ((2 : Int) = 1) := by decide
+    simp only [hv, h21, if_false, if_true]
 
 /-- all payload hashes the honest senders authenticated under MAC key `mk` -/
 def HonestlyMACed (v : Version) (H : List Event) (mk ph : Bytes) : Prop :=
   ∃ e ∈ H, e.macKey = mk ∧ ∃ k c f, e.plan[k]? = some (c, f) ∧ ph = P.hash (honestInput P v e k c f)
 
-/-- a valid authenticator, at the receiver's position, on a payload hash no
-    honest sender ever authenticated under the receiver's MAC key -/
-def MacForgery (s : Decrypt.State) (H : List Event) : Prop :=
-  ∃ (b : EncBlock) (ph : Bytes), b.auths[s.position]? = some (payloadAuthenticator P s.macKey ph) ∧
-    ¬ HonestlyMACed P s.version H s.macKey ph
+/-- **MAC forgery exhibited by the run over `items`.**  The run reaches its
+    `i`-th packet `b` and ACCEPTS it as packet number `i + 1` (releasing `c`);
+    in particular `b` carries, at the receiver's position, the authenticator
+    under the receiver's MAC key of the hash of `recvInput s b i` — yet no honest
+    sender ever authenticated that payload hash under that MAC key. -/
+def MacForgeryIn (s : Decrypt.State) (H : List Event) (items : List (Option EncBlock)) : Prop :=
+  ∃ (i : Nat) (b : EncBlock) (c : Bytes),
+    Reaches (Dec.accept P s) (Decrypt.blockFinal s.version) items i b ∧
+    Dec.accept P s b (i + 1) = some c ∧
+    b.auths[s.position]? = some (payloadAuthenticator P s.macKey (P.hash (recvInput s b i))) ∧
+    ¬ HonestlyMACed P s.version H s.macKey (P.hash (recvInput s b i))
 
-def Break (s : Decrypt.State) (H : List Event) : Prop := MacForgery P s H ∨ HashCollision P
+/-- **Hash collision exhibited by the run over `items`.**  The string the
+    receiver hashed for a packet `b` the run reached and accepted, and the string
+    an honest sender hashed for a chunk of a message MACed under the receiver's
+    MAC key, are DIFFERENT strings with the same hash. -/
+def CollisionIn (s : Decrypt.State) (H : List Event) (items : List (Option EncBlock)) : Prop :=
+  ∃ (i : Nat) (b : EncBlock) (c : Bytes),
+    Reaches (Dec.accept P s) (Decrypt.blockFinal s.version) items i b ∧
+    Dec.accept P s b (i + 1) = some c ∧
+    ∃ e ∈ H, e.macKey = s.macKey ∧ ∃ k c' f', e.plan[k]? = some (c', f') ∧
+      recvInput s b i ≠ honestInput P s.version e k c' f' ∧
+      P.hash (recvInput s b i) = P.hash (honestInput P s.version e k c' f')
 
-/-- what one accepted packet proves: it is chunk `n - 1` of an honest message
-    with this header hash, final flag included — or a break -/
+/-- the third disjunct of the reduction: anchored to `s` and `items` -/
+def BreakIn (s : Decrypt.State) (H : List Event) (items : List (Option EncBlock)) : Prop :=
+  MacForgeryIn P s H items ∨ CollisionIn P s H items
+
+/-- what one reached and accepted packet proves: it is chunk `i` of an honest
+    message with this header hash and MAC key, final flag included — or a break
+    exhibited by this very packet of this run -/
 theorem block_match (hP : P.Lawful) (s : Decrypt.State)
     (hv : s.version.major = 1 ∨ s.version.major = 2) (hhl : s.headerHash.length = 64)
     (H : List Event)
-    (hplan : ∀ e ∈ H, PlanOK e.plan ∧ e.plan.length < 2 ^ 64 - 1 ∧ e.headerHash.length = 64)
-    (hv1 : s.version.major = 1 → ∀ e ∈ H, ∀ p ∈ e.plan, (p.1 = [] ↔ p.2 = true))
+    (hlen : ∀ e ∈ H, e.headerHash.length = 64)
+    (hplan : ∀ e ∈ H, e.headerHash = s.headerHash → PlanOK e.plan ∧ e.plan.length < 2 ^ 64 - 1)
+    (hv1 : s.version.major = 1 → ∀ e ∈ H, e.headerHash = s.headerHash → ∀ p ∈ e.plan, (p.1 = [] ↔ p.2 = true))
     (hkey : ∀ e ∈ H, e.headerHash = s.headerHash → e.payloadKey = s.payloadKey)
-    (b : EncBlock) (n : Nat) (c : Bytes)
-    (h : Dec.accept P s b n = some c) :
-    Break P s H ∨ ∃ e ∈ H, e.headerHash = s.headerHash ∧
-      e.plan[n - 1]? = some (c, Decrypt.blockFinal s.version b) := by
-  obtain ⟨ph, hph, hauth, hopen, hbn⟩ := Dec.accept_binds P s b n c h
-  have hnlt : n - 1 < 2 ^ 64 := by
+    (items : List (Option EncBlock)) (i : Nat) (b : EncBlock) (c : Bytes)
+    (hr : Reaches (Dec.accept P s) (Decrypt.blockFinal s.version) items i b)
+    (h : Dec.accept P s b (i + 1) = some c) :
+    BreakIn P s H items ∨ ∃ e ∈ H, (e.headerHash = s.headerHash ∧ e.macKey = s.macKey) ∧
+      e.plan[i]? = some (c, Decrypt.blockFinal s.version b) := by
+  obtain ⟨ph, hph, hauth, hopen, hbn⟩ := Dec.accept_binds P s b (i + 1) c h
+  simp only [Nat.add_sub_cancel] at hph hopen hbn
+  rw [payloadHash_recv P s hv b i] at hph
+  cases hph
+  have hnlt : i < 2 ^ 64 := by
     unfold blockNumberOK at hbn
     simp only [decide_eq_true_eq] at hbn
     omega
-  by_cases hm : HonestlyMACed P s.version H s.macKey ph
-  · obtain ⟨e, he, _, k, c', f', hk, hpheq⟩ := hm
-    obtain ⟨_, hel, ehl⟩ := hplan e he
-    have hklt : k < 2 ^ 64 := by
-      have := (List.getElem?_eq_some_iff.1 hk).1; omega
-    -- once the fields agree, the chunk is the honest one
-    have hchunk : e.headerHash = s.headerHash → k = n - 1 →
-        b.ct = P.sbSeal e.payloadKey (Nonce.chunkSecretBox k) c' → c = c' := by
-      intro e1 e2 e3
-      rw [e3, hkey e he e1, e2, hP.sb_open_seal] at hopen
-      exact (Option.some.inj hopen).symm
-    rcases hv with hv | hv
-    · -- V1
-      unfold payloadHash at hph
-      simp only [hv, if_true, Except.ok.injEq] at hph
-      simp only [honestInput, hv, if_true] at hpheq
-      rw [← hph] at hpheq
-      by_cases heq : s.headerHash ++ Nonce.chunkSecretBox (n - 1) ++ b.ct =
-          e.headerHash ++ Nonce.chunkSecretBox k ++ P.sbSeal e.payloadKey (Nonce.chunkSecretBox k) c'
-      · obtain ⟨e1, e2, e3⟩ := macInput_inj_v1 _ _ _ _ _ _ hhl ehl
+  by_cases hm : HonestlyMACed P s.version H s.macKey (P.hash (recvInput s b i))
+  · obtain ⟨e, he, hmk, k, c', f', hk, hpheq⟩ := hm
+    have ehl := hlen e he
+    by_cases heq : recvInput s b i = honestInput P s.version e k c' f'
+    · -- the two hashed strings coincide: compare them field by field
+      -- once the fields agree, the chunk is the honest one
+      have hchunk : e.headerHash = s.headerHash → k = i →
+          b.ct = P.sbSeal e.payloadKey (Nonce.chunkSecretBox k) c' → c = c' := by
+        intro e1 e2 e3
+        rw [e3, hkey e he e1, e2, hP.sb_open_seal] at hopen
+        exact (Option.some.inj hopen).symm
+      have hklt : e.headerHash = s.headerHash → k < 2 ^ 64 := by
+        intro e1
+        have := (List.getElem?_eq_some_iff.1 hk).1
+        have := (hplan e he e1).2
+        omega
+      rcases hv with hv | hv
+      · -- V1
+        simp only [recvInput, honestInput, hv, if_true] at heq
+        obtain ⟨e1, e2, e3⟩ := macInput_inj_v1 _ _ _ _ _ _ hhl ehl
           (chunkSecretBox_length _) (chunkSecretBox_length _) heq
-        have e2' := chunkSecretBox_inj _ _ hnlt hklt e2
+        have e2' := chunkSecretBox_inj _ _ hnlt (hklt e1.symm) e2
         have hcc := hchunk e1.symm e2'.symm e3
-        refine Or.inr ⟨e, he, e1.symm, ?_⟩
+        refine Or.inr ⟨e, he, ⟨e1.symm, hmk⟩, ?_⟩
         have hmem : (c', f') ∈ e.plan := List.mem_of_getElem? hk
-        have hiff := hv1 hv e he (c', f') hmem
+        have hiff := hv1 hv e he e1.symm (c', f') hmem
         have hfin : Decrypt.blockFinal s.version b = f' := by
           simp only [Decrypt.blockFinal, hv, if_true]
           rw [e3, hP.sb_len]
           cases f' <;> cases c' <;> simp_all
         rw [e2', hk, hcc, hfin]
-      · exact Or.inl (Or.inr ⟨_, _, heq, hpheq⟩)
-    · -- V2
-      unfold payloadHash at hph
-      have h21 : ¬ ((2 : Int) = 1) := by decide
-      simp only [hv, h21, if_false, if_true, Except.ok.injEq] at hph
-      simp only [honestInput, hv, h21, if_false] at hpheq
-      rw [← hph] at hpheq
-      by_cases heq : s.headerHash ++ Nonce.chunkSecretBox (n - 1) ++
-            finalByte (Decrypt.blockFinal s.version b) ++ b.ct =
-          e.headerHash ++ Nonce.chunkSecretBox k ++ finalByte f' ++
-            P.sbSeal e.payloadKey (Nonce.chunkSecretBox k) c'
-      · obtain ⟨e1, e2, e3, e4⟩ := macInput_inj_v2 _ _ _ _ _ _ _ _ hhl ehl
+      · -- V2
+        have h21 : ¬ ((2 : Int) = 1) := by decide
+        simp only [recvInput, honestInput, hv, h21, if_false] at heq
+        obtain ⟨e1, e2, e3, e4⟩ := macInput_inj_v2 _ _ _ _ _ _ _ _ hhl ehl
           (chunkSecretBox_length _) (chunkSecretBox_length _) heq
-        have e2' := chunkSecretBox_inj _ _ hnlt hklt e2
+        have e2' := chunkSecretBox_inj _ _ hnlt (hklt e1.symm) e2
         have hcc := hchunk e1.symm e2'.symm e4
-        exact Or.inr ⟨e, he, e1.symm, by rw [e2', hk, hcc, e3]⟩
-      · exact Or.inl (Or.inr ⟨_, _, heq, hpheq⟩)
-  · exact Or.inl (Or.inl ⟨b, ph, hauth, hm⟩)
+        exact Or.inr ⟨e, he, ⟨e1.symm, hmk⟩, by rw [e2', hk, hcc, e3]⟩
+    · exact Or.inl (Or.inr ⟨i, b, c, hr, h, e, he, hmk, k, c', f', hk, heq, hpheq⟩)
+  · exact Or.inl (Or.inl ⟨i, b, c, hr, h, hauth, hm⟩)
 
-/-- **C02, reduction.**  `H` is any history of honest messages.  Hypotheses:
-    the receiver state has a supported major and a 64-byte header hash (true of
-    every state `processHeader` returns, with `Prims.Lawful`); honest plans are
-    well-formed and short of the packet-number overflow guard; and an honest
-    message with *this* header hash was encrypted under the payload key the
-    receiver derived (`hkey` — the round-trip theorem C01 for the header, absent
-    a header-hash collision). -/
+/-- **C02, reduction.**  `H` is any history of honest messages (each with the
+    MAC key it used for this recipient).
+
+    Hypotheses on the receiver state: a supported major and a 64-byte header
+    hash (true of every state `processHeader` returns, with `Prims.Lawful`).
+
+    Hypotheses on the history: header hashes are 64 bytes long (`hlen`); the
+    honest messages WITH THIS HEADER HASH have well-formed plans short of the
+    packet-number overflow guard (`hplan`) and, for a V1 receiver, V1-shaped
+    plans (`hv1`) — nothing is asked of the other messages of the history, which
+    may mix versions.
+
+    ASSUMPTIONS (explicit hypotheses, not proved here):
+    * `hkey` — an honest message with this header hash was encrypted under the
+      payload key the receiver derived.  For the honest header itself this is
+      `hkey_of_honest_header` (Proofs/Attribution.lean); that equal header hashes
+      mean equal headers is collision resistance of the header hash.
+    * `hone` — at most one honest message has this header hash: freshness of the
+      sender's randomness (ephemeral key, payload key are in the header) plus
+      collision resistance of the header hash. -/
 theorem authentic_or_break (hP : P.Lawful) (s : Decrypt.State)
     (hv : s.version.major = 1 ∨ s.version.major = 2) (hhl : s.headerHash.length = 64)
     (H : List Event)
-    (hplan : ∀ e ∈ H, PlanOK e.plan ∧ e.plan.length < 2 ^ 64 - 1 ∧ e.headerHash.length = 64)
-    (hv1 : s.version.major = 1 → ∀ e ∈ H, ∀ p ∈ e.plan, (p.1 = [] ↔ p.2 = true))
+    (hlen : ∀ e ∈ H, e.headerHash.length = 64)
+    (hplan : ∀ e ∈ H, e.headerHash = s.headerHash → PlanOK e.plan ∧ e.plan.length < 2 ^ 64 - 1)
+    (hv1 : s.version.major = 1 → ∀ e ∈ H, e.headerHash = s.headerHash → ∀ p ∈ e.plan, (p.1 = [] ↔ p.2 = true))
     (hkey : ∀ e ∈ H, e.headerHash = s.headerHash → e.payloadKey = s.payloadKey)
-    (hone : ∀ e ∈ H, ∀ e' ∈ H, e.headerHash = e'.headerHash → e = e')
+    (hone : ∀ e ∈ H, ∀ e' ∈ H, e.headerHash = s.headerHash → e'.headerHash = s.headerHash → e = e')
     (items : List (Option EncBlock)) (tail : Tail) :
     let r := Decrypt.run P s items tail 1
     r.bytes = [] ∧ r.err ≠ none ∨
-    (∃ e ∈ H, e.headerHash = s.headerHash ∧ ∃ m, m ≤ e.plan.length ∧ r.bytes = planPrefix e.plan m ∧
-        (r.err = none → m = e.plan.length)) ∨
-    Break P s H := by
+    (∃ e ∈ H, (e.headerHash = s.headerHash ∧ e.macKey = s.macKey) ∧
+      ∃ m, m ≤ e.plan.length ∧ r.bytes = planPrefix e.plan m ∧ (r.err = none → m = e.plan.length)) ∨
+    BreakIn P s H items := by
   intro r
-  refine assemble (acc := Dec.accept P s) (fin := Decrypt.blockFinal s.version)
-    H (·.headerHash) (·.plan) s.headerHash (Break P s H) items.length
-    (fun e he => (hplan e he).1) hone ?_ r.bytes r.err ?_ ?_
-  · intro b n c _ _ ha
-    exact block_match P hP s hv hhl H hplan hv1 hkey b n c ha
-  · obtain ⟨bs, hp, hc⟩ := Dec.run_prefix P s items tail 1
-    exact ⟨bs, prefix_map_some_length hp, hc⟩
+  refine assemble (acc := Dec.accept P s) (fin := Decrypt.blockFinal s.version) items
+    H (fun e => e.headerHash = s.headerHash ∧ e.macKey = s.macKey) (·.plan) (BreakIn P s H items)
+    (fun e he hM => (hplan e he hM.1).1) (fun e he e' he' hM hM' => hone e he e' he' hM.1 hM'.1)
+    ?_ r.bytes r.err ?_ ?_
+  · intro i b c hr ha
+    exact block_match P hP s hv hhl H hlen hplan hv1 hkey items i b c hr ha
+  · exact Dec.run_prefix P s items tail 1
   · intro herr
     obtain ⟨bs, hi, _, hc⟩ := (Dec.run_ok_iff P s items tail 1).1 herr
-    exact ⟨bs, by rw [hi]; simp, hc⟩
-
+    exact ⟨bs, by rw [hi]; exact List.prefix_refl _, hc⟩
 
 end AuthEnc
 
@@ -317,96 +461,145 @@ variable (P : Prims)
 def honestHashed (v : Version) (e : Event) (k : Nat) (c : Bytes) (f : Bool) : Bytes :=
   if v.major = 1 then e.headerHash ++ be64 k ++ c else e.headerHash ++ be64 k ++ finalByte f ++ c
 
+/-- what the VERIFIER hashes for packet `b` taken as its `i`-th payload packet
+    (0-based): header hash ‖ be64 i ‖ [final byte] ‖ chunk -/
+def recvHashed (s : Sign.State) (b : SigBlock) (i : Nat) : Bytes :=
+  if s.version.major = 1 then s.headerHash ++ be64 i ++ b.chunk
+  else s.headerHash ++ be64 i ++ finalByte (Sign.blockFinal s.version b) ++ b.chunk
+
+/-- the signature input the verifier checks `b.sig` on -/
+def recvSigInput (s : Sign.State) (b : SigBlock) (i : Nat) : Bytes :=
+  Gen.c_sp_signatureAttachedString ++ P.hash (recvHashed s b i)
+
+/-- `recvSigInput` is `attachedSignatureInput` of the packet (majors 1 and 2) -/
+theorem attachedInput_recv (s : Sign.State) (hv : s.version.major = 1 ∨ s.version.major = 2)
+    (b : SigBlock) (i : Nat) :
+    attachedSignatureInput P s.version s.headerHash b.chunk i (Sign.blockFinal s.version b)
+      = .ok (recvSigInput P s b i) := by
+  unfold attachedSignatureInput recvSigInput recvHashed
+  rcases hv with hv | hv
+  · simp only [hv, if_true]
+  · have h21 : ¬ ((2 : Int) = 1) := by decide
+    simp only [hv, h21, if_false, if_true]
+
 /-- every input the honest owner of the key signed in attached mode -/
 def HonestlySigned (v : Version) (H : List Event) (inp : Bytes) : Prop :=
   ∃ e ∈ H, ∃ k c f, e.plan[k]? = some (c, f) ∧
     inp = Gen.c_sp_signatureAttachedString ++ P.hash (honestHashed v e k c f)
 
-/-- a signature that verifies under the looked-up key on an input its owner
-    never signed -/
-def SigForgery (s : Sign.State) (H : List Event) : Prop :=
-  ∃ inp sig : Bytes, P.verify s.publicKey inp sig = true ∧ ¬ HonestlySigned P s.version H inp
+/-- **Signature forgery exhibited by the run over `items`.**  The run reaches
+    its `i`-th packet `b` and ACCEPTS it as packet number `i + 1`; in particular
+    `b.sig` verifies, under the looked-up key, on `recvSigInput P s b i` — an
+    input the owner of that key never signed. -/
+def SigForgeryIn (s : Sign.State) (H : List Event) (items : List (Option SigBlock)) : Prop :=
+  ∃ (i : Nat) (b : SigBlock),
+    Reaches (Ver.accept P s) (Sign.blockFinal s.version) items i b ∧
+    Ver.accept P s b (i + 1) = some b.chunk ∧
+    P.verify s.publicKey (recvSigInput P s b i) b.sig = true ∧
+    ¬ HonestlySigned P s.version H (recvSigInput P s b i)
 
-def Break (s : Sign.State) (H : List Event) : Prop := SigForgery P s H ∨ HashCollision P
+/-- **Hash collision exhibited by the run over `items`**: between what the
+    verifier hashed for a reached and accepted packet of the run and what the
+    honest signer hashed for one of its chunks — two different explicit strings. -/
+def CollisionIn (s : Sign.State) (H : List Event) (items : List (Option SigBlock)) : Prop :=
+  ∃ (i : Nat) (b : SigBlock),
+    Reaches (Ver.accept P s) (Sign.blockFinal s.version) items i b ∧
+    Ver.accept P s b (i + 1) = some b.chunk ∧
+    ∃ e ∈ H, ∃ k c' f', e.plan[k]? = some (c', f') ∧
+      recvHashed s b i ≠ honestHashed s.version e k c' f' ∧
+      P.hash (recvHashed s b i) = P.hash (honestHashed s.version e k c' f')
 
-/-- what one accepted packet proves: it is chunk `n - 1` of an honest message
-    with this header hash, final flag included — or a break -/
+def BreakIn (s : Sign.State) (H : List Event) (items : List (Option SigBlock)) : Prop :=
+  SigForgeryIn P s H items ∨ CollisionIn P s H items
+
+/-- what one reached and accepted packet proves: it is chunk `i` of an honest
+    message with this header hash, final flag included — or a break exhibited by
+    this very packet of this run -/
 theorem block_match (s : Sign.State)
     (hv : s.version.major = 1 ∨ s.version.major = 2) (hhl : s.headerHash.length = 64)
     (H : List Event)
-    (hplan : ∀ e ∈ H, PlanOK e.plan ∧ e.plan.length < 2 ^ 64 ∧ e.headerHash.length = 64)
-    (hv1 : s.version.major = 1 → ∀ e ∈ H, ∀ p ∈ e.plan, (p.1 = [] ↔ p.2 = true))
-    (b : SigBlock) (n : Nat) (c : Bytes) (hn : n - 1 < 2 ^ 64)
-    (h : Ver.accept P s b n = some c) :
-    Break P s H ∨ ∃ e ∈ H, e.headerHash = s.headerHash ∧
-      e.plan[n - 1]? = some (c, Sign.blockFinal s.version b) := by
-  obtain ⟨hc, inp, hinp, hver⟩ := Ver.accept_binds P s b n c h
+    (hlen : ∀ e ∈ H, e.headerHash.length = 64)
+    (hplan : ∀ e ∈ H, e.headerHash = s.headerHash → PlanOK e.plan ∧ e.plan.length < 2 ^ 64)
+    (hv1 : s.version.major = 1 → ∀ e ∈ H, e.headerHash = s.headerHash → ∀ p ∈ e.plan, (p.1 = [] ↔ p.2 = true))
+    (items : List (Option SigBlock)) (hitems : items.length < 2 ^ 64)
+    (i : Nat) (b : SigBlock) (c : Bytes)
+    (hr : Reaches (Ver.accept P s) (Sign.blockFinal s.version) items i b)
+    (h : Ver.accept P s b (i + 1) = some c) :
+    BreakIn P s H items ∨ ∃ e ∈ H, e.headerHash = s.headerHash ∧
+      e.plan[i]? = some (c, Sign.blockFinal s.version b) := by
+  obtain ⟨hc, inp, hinp, hver⟩ := Ver.accept_binds P s b (i + 1) c h
   subst hc
-  by_cases hs : HonestlySigned P s.version H inp
+  simp only [Nat.add_sub_cancel] at hinp
+  rw [attachedInput_recv P s hv b i] at hinp
+  cases hinp
+  have hn : i < 2 ^ 64 := by have := hr.lt; omega
+  by_cases hs : HonestlySigned P s.version H (recvSigInput P s b i)
   · obtain ⟨e, he, k, c', f', hk, hinpeq⟩ := hs
-    obtain ⟨_, hel, ehl⟩ := hplan e he
-    have hklt : k < 2 ^ 64 := by
-      have := (List.getElem?_eq_some_iff.1 hk).1; omega
-    rcases hv with hv | hv
-    · -- V1
-      unfold attachedSignatureInput at hinp
-      simp only [hv, if_true, Except.ok.injEq] at hinp
-      simp only [honestHashed, hv, if_true] at hinpeq
-      rw [← hinp] at hinpeq
-      have hh := List.append_cancel_left hinpeq
-      by_cases heq : s.headerHash ++ be64 (n - 1) ++ b.chunk = e.headerHash ++ be64 k ++ c'
-      · obtain ⟨e1, e2, e3⟩ := attachedInput_inj_v1 _ _ _ _ _ _ hhl ehl hn hklt heq
+    have ehl := hlen e he
+    have hh : P.hash (recvHashed s b i) = P.hash (honestHashed s.version e k c' f') :=
+      List.append_cancel_left hinpeq
+    by_cases heq : recvHashed s b i = honestHashed s.version e k c' f'
+    · have hklt : e.headerHash = s.headerHash → k < 2 ^ 64 := by
+        intro e1
+        have := (List.getElem?_eq_some_iff.1 hk).1
+        have := (hplan e he e1).2
+        omega
+      rcases hv with hv | hv
+      · -- V1
+        simp only [recvHashed, honestHashed, hv, if_true] at heq
+        -- header hashes first (they have the same length), then the rest
+        have e1 : s.headerHash = e.headerHash := by
+          simp only [List.append_assoc] at heq
+          exact (List.append_inj heq (by omega)).1
+        obtain ⟨_, e2, e3⟩ := attachedInput_inj_v1 _ _ _ _ _ _ hhl ehl hn (hklt e1.symm) heq
         refine Or.inr ⟨e, he, e1.symm, ?_⟩
         have hmem : (c', f') ∈ e.plan := List.mem_of_getElem? hk
-        have hiff := hv1 hv e he (c', f') hmem
+        have hiff := hv1 hv e he e1.symm (c', f') hmem
         have hfin : Sign.blockFinal s.version b = f' := by
           simp only [Sign.blockFinal, hv, if_true]
           rw [e3]
           cases f' <;> cases c' <;> simp_all
         rw [e2, hk, e3, hfin]
-      · exact Or.inl (Or.inr ⟨_, _, heq, hh⟩)
-    · -- V2
-      unfold attachedSignatureInput at hinp
-      have h21 : ¬ ((2 : Int) = 1) := by decide
-      simp only [hv, h21, if_false, if_true, Except.ok.injEq] at hinp
-      simp only [honestHashed, hv, h21, if_false] at hinpeq
-      rw [← hinp] at hinpeq
-      have hh := List.append_cancel_left hinpeq
-      by_cases heq : s.headerHash ++ be64 (n - 1) ++ finalByte (Sign.blockFinal s.version b) ++ b.chunk
-          = e.headerHash ++ be64 k ++ finalByte f' ++ c'
-      · obtain ⟨e1, e2, e3, e4⟩ := attachedInput_inj_v2 _ _ _ _ _ _ _ _ hhl ehl hn hklt heq
+      · -- V2
+        have h21 : ¬ ((2 : Int) = 1) := by decide
+        simp only [recvHashed, honestHashed, hv, h21, if_false] at heq
+        have e1 : s.headerHash = e.headerHash := by
+          simp only [List.append_assoc] at heq
+          exact (List.append_inj heq (by omega)).1
+        obtain ⟨_, e2, e3, e4⟩ := attachedInput_inj_v2 _ _ _ _ _ _ _ _ hhl ehl hn (hklt e1.symm) heq
         exact Or.inr ⟨e, he, e1.symm, by rw [e2, hk, e3, e4]⟩
-      · exact Or.inl (Or.inr ⟨_, _, heq, hh⟩)
-  · exact Or.inl (Or.inl ⟨inp, b.sig, hver, hs⟩)
-
+    · exact Or.inl (Or.inr ⟨i, b, hr, h, e, he, k, c', f', hk, heq, hh⟩)
+  · exact Or.inl (Or.inl ⟨i, b, hr, h, hver, hs⟩)
 
 /-- **C06, reduction.** `H`: all attached messages the owner of `s.publicKey`
-    ever signed. -/
+    ever signed.  `hplan`, `hv1` are asked only of the messages with THIS header
+    hash.  ASSUMPTION `hone`: at most one of them has this header hash
+    (freshness of the 16-byte random header nonce + collision resistance of the
+    header hash). -/
 theorem authentic_or_break (hP : P.Lawful) (s : Sign.State)
     (hv : s.version.major = 1 ∨ s.version.major = 2) (hhl : s.headerHash.length = 64)
     (H : List Event)
-    (hplan : ∀ e ∈ H, PlanOK e.plan ∧ e.plan.length < 2 ^ 64 ∧ e.headerHash.length = 64)
-    (hv1 : s.version.major = 1 → ∀ e ∈ H, ∀ p ∈ e.plan, (p.1 = [] ↔ p.2 = true))
-    (hone : ∀ e ∈ H, ∀ e' ∈ H, e.headerHash = e'.headerHash → e = e')
+    (hlen : ∀ e ∈ H, e.headerHash.length = 64)
+    (hplan : ∀ e ∈ H, e.headerHash = s.headerHash → PlanOK e.plan ∧ e.plan.length < 2 ^ 64)
+    (hv1 : s.version.major = 1 → ∀ e ∈ H, e.headerHash = s.headerHash → ∀ p ∈ e.plan, (p.1 = [] ↔ p.2 = true))
+    (hone : ∀ e ∈ H, ∀ e' ∈ H, e.headerHash = s.headerHash → e'.headerHash = s.headerHash → e = e')
     (items : List (Option SigBlock)) (hitems : items.length < 2 ^ 64) (tail : Tail) :
     let r := Sign.run P s items tail 1
     r.bytes = [] ∧ r.err ≠ none ∨
     (∃ e ∈ H, e.headerHash = s.headerHash ∧ ∃ m, m ≤ e.plan.length ∧ r.bytes = planPrefix e.plan m ∧
         (r.err = none → m = e.plan.length)) ∨
-    Break P s H := by
+    BreakIn P s H items := by
   have _ := hP
   intro r
-  refine assemble (acc := Ver.accept P s) (fin := Sign.blockFinal s.version)
-    H (·.headerHash) (·.plan) s.headerHash (Break P s H) items.length
-    (fun e he => (hplan e he).1) hone ?_ r.bytes r.err ?_ ?_
-  · intro b n c _ hn ha
-    exact block_match P s hv hhl H hplan hv1 b n c (by omega) ha
-  · obtain ⟨bs, hp, hc⟩ := Ver.run_prefix P s items tail 1
-    exact ⟨bs, prefix_map_some_length hp, hc⟩
+  refine assemble (acc := Ver.accept P s) (fin := Sign.blockFinal s.version) items
+    H (fun e => e.headerHash = s.headerHash) (·.plan) (BreakIn P s H items)
+    (fun e he hM => (hplan e he hM).1) hone ?_ r.bytes r.err ?_ ?_
+  · intro i b c hr ha
+    exact block_match P s hv hhl H hlen hplan hv1 items hitems i b c hr ha
+  · exact Ver.run_prefix P s items tail 1
   · intro herr
     obtain ⟨bs, hi, _, hc⟩ := (Ver.run_ok_iff P s items tail 1).1 herr
-    exact ⟨bs, by rw [hi]; simp, hc⟩
-
+    exact ⟨bs, by rw [hi]; exact List.prefix_refl _, hc⟩
 
 end AuthSig
 
@@ -424,66 +617,441 @@ def HonestlySigned (H : List Event) (inp : Bytes) : Prop :=
   ∃ e ∈ H, ∃ k c f, e.plan[k]? = some (c, f) ∧
     inp = signcryptionSignatureInput P e.headerHash (Nonce.chunkSigncryption e.headerHash f k) f c
 
-def SigForgery (spk : Bytes) (H : List Event) : Prop :=
-  ∃ inp sig : Bytes, P.verify spk inp sig = true ∧ ¬ HonestlySigned P H inp
+/-- the signature input the receiver checks for packet `b` taken as its `i`-th
+    payload packet (0-based), `c` being the chunk it opened -/
+def recvSigInput (s : Signcrypt.State) (b : SigncryptBlock) (i : Nat) (c : Bytes) : Bytes :=
+  signcryptionSignatureInput P s.headerHash (Nonce.chunkSigncryption s.headerHash b.final i) b.final c
 
-def Break (spk : Bytes) (H : List Event) : Prop := SigForgery P spk H ∨ HashCollision P
+/-- **Signature forgery exhibited by the run over `items`** (named sender
+    `spk`).  The run reaches its `i`-th packet `b` and ACCEPTS it as packet
+    number `i + 1`, releasing `c`: the packet's ciphertext opens, under the
+    receiver's payload key and the nonce of (header hash, final flag, `i`), to
+    `sig ‖ c`, and `sig` verifies under `spk` on `recvSigInput P s b i c` — an
+    input the owner of `spk` never signed. -/
+def SigForgeryIn (s : Signcrypt.State) (spk : Bytes) (H : List Event)
+    (items : List (Option SigncryptBlock)) : Prop :=
+  ∃ (i : Nat) (b : SigncryptBlock) (c sig : Bytes),
+    s.sender = some spk ∧
+    Reaches (Sc.accept P s) (·.final) items i b ∧
+    Sc.accept P s b (i + 1) = some c ∧
+    sig.length = 64 ∧
+    P.sbOpen s.payloadKey (Nonce.chunkSigncryption s.headerHash b.final i) b.ct = some (sig ++ c) ∧
+    P.verify spk (recvSigInput P s b i c) sig = true ∧
+    ¬ HonestlySigned P H (recvSigInput P s b i c)
 
-/-- what one accepted packet proves: it is chunk `n - 1` of an honest message
-    with this header hash, final flag included — or a break -/
+/-- **Hash collision exhibited by the run over `items`**: the chunk `c` the
+    receiver released for a reached and accepted packet (position `i`, final flag
+    `b.final`) and the chunk `c'` the honest sender signed at that very position
+    with that very flag in the message with this header hash are different
+    chunks with the same hash. -/
+def CollisionIn (s : Signcrypt.State) (H : List Event) (items : List (Option SigncryptBlock)) : Prop :=
+  ∃ (i : Nat) (b : SigncryptBlock) (c : Bytes),
+    Reaches (Sc.accept P s) (·.final) items i b ∧
+    Sc.accept P s b (i + 1) = some c ∧
+    ∃ e ∈ H, e.headerHash = s.headerHash ∧ ∃ c', e.plan[i]? = some (c', b.final) ∧
+      c ≠ c' ∧ P.hash c = P.hash c'
+
+def BreakIn (s : Signcrypt.State) (spk : Bytes) (H : List Event)
+    (items : List (Option SigncryptBlock)) : Prop :=
+  SigForgeryIn P s spk H items ∨ CollisionIn P s H items
+
+/-- what one reached and accepted packet proves: it is chunk `i` of an honest
+    message with this header hash, final flag included — or a break exhibited by
+    this very packet of this run -/
 theorem block_match (hP : P.Lawful) (s : Signcrypt.State) (spk : Bytes) (hs : s.sender = some spk)
     (hhl : s.headerHash.length = 64)
     (H : List Event)
-    (hplan : ∀ e ∈ H, PlanOK e.plan ∧ e.plan.length < 2 ^ 64 ∧ e.headerHash.length = 64)
-    (b : SigncryptBlock) (n : Nat) (c : Bytes)
-    (h : Sc.accept P s b n = some c) :
-    Break P spk H ∨ ∃ e ∈ H, e.headerHash = s.headerHash ∧ e.plan[n - 1]? = some (c, b.final) := by
-  obtain ⟨sig, _, _, hver, hbn⟩ := Sc.accept_binds P s spk hs b n c h
-  have hnlt : n - 1 < 2 ^ 64 := by
+    (hlen : ∀ e ∈ H, e.headerHash.length = 64)
+    (hplan : ∀ e ∈ H, e.headerHash = s.headerHash → PlanOK e.plan ∧ e.plan.length < 2 ^ 64)
+    (items : List (Option SigncryptBlock)) (i : Nat) (b : SigncryptBlock) (c : Bytes)
+    (hr : Reaches (Sc.accept P s) (·.final) items i b)
+    (h : Sc.accept P s b (i + 1) = some c) :
+    BreakIn P s spk H items ∨ ∃ e ∈ H, e.headerHash = s.headerHash ∧ e.plan[i]? = some (c, b.final) := by
+  obtain ⟨sig, hsl, hopen, hver, hbn⟩ := Sc.accept_binds P s spk hs b (i + 1) c h
+  simp only [Nat.add_sub_cancel] at hopen hver hbn
+  have hnlt : i < 2 ^ 64 := by
     unfold blockNumberOK at hbn
     simp only [decide_eq_true_eq] at hbn
     omega
-  by_cases hsg : HonestlySigned P H (signcryptionSignatureInput P s.headerHash
-      (Nonce.chunkSigncryption s.headerHash b.final (n - 1)) b.final c)
+  by_cases hsg : HonestlySigned P H (recvSigInput P s b i c)
   · obtain ⟨e, he, k, c', f', hk, hinpeq⟩ := hsg
-    obtain ⟨_, hel, ehl⟩ := hplan e he
-    have hklt : k < 2 ^ 64 := by
-      have := (List.getElem?_eq_some_iff.1 hk).1; omega
+    have ehl := hlen e he
     obtain ⟨e1, e2, e3, e4⟩ := signcryptInput_inj P hP.hash_len _ _ _ _ _ _ _ _ hhl ehl
       (chunkSigncryption_length _ hhl _ _) (chunkSigncryption_length _ ehl _ _) hinpeq
+    have hklt : k < 2 ^ 64 := by
+      have := (List.getElem?_eq_some_iff.1 hk).1
+      have := (hplan e he e1.symm).2
+      omega
     rw [← e1] at e2
     obtain ⟨_, e5⟩ := chunkSigncryption_inj _ hhl _ _ _ _ hnlt hklt e2
     by_cases heq : c = c'
     · exact Or.inr ⟨e, he, e1.symm, by rw [e5, hk, heq, e3]⟩
-    · exact Or.inl (Or.inr ⟨c, c', heq, e4⟩)
-  · exact Or.inl (Or.inl ⟨_, sig, hver, hsg⟩)
+    · exact Or.inl (Or.inr ⟨i, b, c, hr, h, e, he, e1.symm, c', by rw [e5, hk, e3], heq, e4⟩)
+  · exact Or.inl (Or.inl ⟨i, b, c, sig, hs, hr, h, hsl, hopen, hver, hsg⟩)
 
 /-- **C04, reduction, named sender** — holds even against an adversary who
-    knows the payload key (nothing is assumed about `s.payloadKey`). -/
+    knows the payload key (nothing is assumed about `s.payloadKey`).  `H`: all
+    messages the owner of `spk` ever signcrypted.  `hplan` is asked only of the
+    messages with THIS header hash.  ASSUMPTION `hone`: at most one of them has
+    this header hash (freshness of the sender's ephemeral key / payload key,
+    which the header covers, + collision resistance of the header hash). -/
 theorem authentic_or_break (hP : P.Lawful) (s : Signcrypt.State) (spk : Bytes) (hs : s.sender = some spk)
     (hhl : s.headerHash.length = 64)
     (H : List Event)
-    (hplan : ∀ e ∈ H, PlanOK e.plan ∧ e.plan.length < 2 ^ 64 ∧ e.headerHash.length = 64)
-    (hone : ∀ e ∈ H, ∀ e' ∈ H, e.headerHash = e'.headerHash → e = e')
+    (hlen : ∀ e ∈ H, e.headerHash.length = 64)
+    (hplan : ∀ e ∈ H, e.headerHash = s.headerHash → PlanOK e.plan ∧ e.plan.length < 2 ^ 64)
+    (hone : ∀ e ∈ H, ∀ e' ∈ H, e.headerHash = s.headerHash → e'.headerHash = s.headerHash → e = e')
     (items : List (Option SigncryptBlock)) (tail : Tail) :
     let r := Signcrypt.run P s items tail 1
     r.bytes = [] ∧ r.err ≠ none ∨
     (∃ e ∈ H, e.headerHash = s.headerHash ∧ ∃ m, m ≤ e.plan.length ∧ r.bytes = planPrefix e.plan m ∧
         (r.err = none → m = e.plan.length)) ∨
-    Break P spk H := by
+    BreakIn P s spk H items := by
   intro r
-  refine assemble (acc := Sc.accept P s) (fin := (·.final))
-    H (·.headerHash) (·.plan) s.headerHash (Break P spk H) items.length
-    (fun e he => (hplan e he).1) hone ?_ r.bytes r.err ?_ ?_
-  · intro b n c _ _ ha
-    exact block_match P hP s spk hs hhl H hplan b n c ha
-  · obtain ⟨bs, hp, hc⟩ := Sc.run_prefix P s items tail 1
-    exact ⟨bs, prefix_map_some_length hp, hc⟩
+  refine assemble (acc := Sc.accept P s) (fin := (·.final)) items
+    H (fun e => e.headerHash = s.headerHash) (·.plan) (BreakIn P s spk H items)
+    (fun e he hM => (hplan e he hM).1) hone ?_ r.bytes r.err ?_ ?_
+  · intro i b c hr ha
+    exact block_match P hP s spk hs hhl H hlen hplan items i b c hr ha
+  · exact Sc.run_prefix P s items tail 1
   · intro herr
     obtain ⟨bs, hi, _, hc⟩ := (Sc.run_ok_iff P s items tail 1).1 herr
-    exact ⟨bs, by rw [hi]; simp, hc⟩
-
+    exact ⟨bs, by rw [hi]; exact List.prefix_refl _, hc⟩
 
 end AuthSc
+
+/-! ## the third disjunct is not always true (machine-checked)
+
+  For each mode: a concrete HONEST two-packet run for which `¬ BreakIn` is
+  proved, TAMPERED runs (packets swapped; a byte changed) that fall under the
+  first disjunct (nothing released, the run fails), and a TRUNCATED run that
+  falls under the second one with `m = 1 < 2` and an error. -/
+namespace Demo
+
+/-! A small `Prims` for the demonstrations.  `Toy.prims` will not do: its hash
+   keeps only the first 64 bytes of its input (all packets of one message
+   collide), its HMAC ignores the message, its secretbox tag ignores the chunk
+   counter and its signatures ignore all but the first 32 bytes of the input —
+   with `Toy.prims` a reordered message IS accepted and `BreakIn` HOLDS for it,
+   as the reduction says it must.  Here every primitive is a position-wise sum
+   of the fixed-width blocks of ALL of its input: still no security whatsoever,
+   but lawful, kernel-evaluable, and good enough that on the tiny instances
+   below the honest strings are told apart. -/
+
+/-- position-wise sum of the `w`-byte blocks of `m` (zero-padded) -/
+def mix (w : Nat) : Nat → Bytes → Bytes
+  | 0, _ => zeros w
+  | fuel + 1, m => (Toy.pad w m).zipWith (· + ·) (mix w fuel (m.drop w))
+
+def sum (w : Nat) (m : Bytes) : Bytes := mix w (m.length / w + 1) m
+
+theorem mix_length (w fuel : Nat) (m : Bytes) : (mix w fuel m).length = w := by
+  induction fuel generalizing m with
+  | zero => simp [mix, zeros]
+  | succ f ih => simp [mix, ih, Toy.pad_length]
+
+theorem sum_length (w : Nat) (m : Bytes) : (sum w m).length = w := mix_length _ _ _
+
+def tag (k n : Bytes) : Bytes := sum 16 (k ++ n)
+
+theorem tag_length (k n : Bytes) : (tag k n).length = 16 := sum_length _ _
+
+def prims : Prims where
+  hash m := sum 64 m
+  hmac k m := sum 32 (k ++ m) ++ sum 32 (k ++ m)
+  sbSeal k n m := tag k n ++ m
+  sbOpen k n c := if c.length ≥ 16 ∧ c.take 16 = tag k n then some (c.drop 16) else none
+  boxPub := Toy.prims.boxPub
+  precompute := Toy.prims.precompute
+  sigPub s := Toy.pad 32 s
+  sign s m := sum 64 (Toy.pad 32 s ++ m)
+  verify p m sg := sg == sum 64 (p ++ m)
+
+theorem lawful : prims.Lawful where
+  sb_open_seal k n m := by
+    simp only [prims]
+    have h := tag_length k n
+    rw [if_pos]
+    · simp [h]
+    · constructor
+      · simp; omega
+      · rw [List.take_append_of_le_length (by omega), List.take_of_length_le (by omega)]
+  sb_len k n m := by simp [prims, tag_length]; omega
+  sb_open_len k n c m h := by
+    simp only [prims] at h
+    split at h
+    · rename_i hc
+      injection h with h
+      subst h
+      simp; omega
+    · cases h
+  dh_comm := Toy.lawful.dh_comm
+  verify_sign s m := by simp [prims]
+  hash_len _ := sum_length _ _
+  hmac_len _ _ := by simp [prims, sum_length]
+  pub_len := Toy.lawful.pub_len
+  sigPub_len s := Toy.pad_length _ _
+  sig_len _ _ := sum_length _ _
+  shared_len := Toy.lawful.shared_len
+
+def hh : Bytes := List.replicate 64 7
+def pk : Bytes := List.replicate 32 1
+def mk : Bytes := List.replicate 32 2
+def seed : Bytes := List.replicate 32 3
+def plan : List (Bytes × Bool) := [([65], false), ([66], true)]
+
+namespace Enc
+open AuthEnc
+set_option maxRecDepth 100000
+
+def s : Decrypt.State :=
+  { version := v2, payloadKey := pk, headerHash := hh, macKey := mk, position := 0, mki := default }
+
+def e0 : Event := ⟨hh, pk, mk, [([65], false), ([66], true)]⟩
+
+/-- the packet the honest sender makes for chunk `k` -/
+def pkt (k : Nat) (c : Bytes) (f : Bool) : EncBlock :=
+  ⟨[payloadAuthenticator prims mk (prims.hash (honestInput prims v2 e0 k c f))],
+   prims.sbSeal pk (Nonce.chunkSecretBox k) c, f⟩
+
+def b0 : EncBlock := pkt 0 [65] false
+def b1 : EncBlock := pkt 1 [66] true
+
+def items : List (Option EncBlock) := [some b0, some b1]
+
+theorem honest_run : Decrypt.run prims s items .eof 1 = ⟨[65, 66], none⟩ := by decide
+
+
+/-- **Non-triviality (C02).** For this honest run the anchored `BreakIn` is
+    FALSE: the third disjunct of the reduction is not always true. -/
+theorem honest_not_break : ¬ BreakIn prims s [e0] items := by
+  rintro (⟨i, b, c, ⟨hi, -⟩, -, -, hnot⟩ | ⟨i, b, c, ⟨hi, -⟩, -, e, he, -, k, c', f', hk, hne, heq⟩)
+  · -- a forgery would need a packet of the run whose payload hash is not honest
+    rcases i with _ | _ | i
+    · simp only [items, List.getElem?_cons_zero, Option.some.injEq] at hi
+      subst hi
+      exact hnot ⟨e0, List.mem_singleton.2 rfl, rfl, 0, [65], false, rfl, by decide⟩
+    · simp only [items, List.getElem?_cons_succ, List.getElem?_cons_zero, Option.some.injEq] at hi
+      subst hi
+      exact hnot ⟨e0, List.mem_singleton.2 rfl, rfl, 1, [66], true, rfl, by decide⟩
+    · simp [items] at hi
+  · -- a collision would need two different hashed strings with equal hashes
+    have he0 : e = e0 := List.mem_singleton.1 he
+    subst he0
+    rcases i with _ | _ | i
+    · simp only [items, List.getElem?_cons_zero, Option.some.injEq] at hi
+      subst hi
+      rcases k with _ | _ | k
+      · simp only [e0, List.getElem?_cons_zero, Option.some.injEq, Prod.mk.injEq] at hk
+        obtain ⟨rfl, rfl⟩ := hk
+        exact hne (by decide)
+      · simp only [e0, List.getElem?_cons_succ, List.getElem?_cons_zero, Option.some.injEq, Prod.mk.injEq] at hk
+        obtain ⟨rfl, rfl⟩ := hk
+        exact absurd heq (by decide)
+      · simp [e0] at hk
+    · simp only [items, List.getElem?_cons_succ, List.getElem?_cons_zero, Option.some.injEq] at hi
+      subst hi
+      rcases k with _ | _ | k
+      · simp only [e0, List.getElem?_cons_zero, Option.some.injEq, Prod.mk.injEq] at hk
+        obtain ⟨rfl, rfl⟩ := hk
+        exact absurd heq (by decide)
+      · simp only [e0, List.getElem?_cons_succ, List.getElem?_cons_zero, Option.some.injEq, Prod.mk.injEq] at hk
+        obtain ⟨rfl, rfl⟩ := hk
+        exact hne (by decide)
+      · simp [e0] at hk
+    · simp [items] at hi
+
+/-- tampered run 1: the two packets swapped — nothing is released, the run fails -/
+theorem swapped_run : Decrypt.run prims s [some b1, some b0] .eof 1 = ⟨[], some .badTag⟩ := by decide
+
+/-- tampered run 2: one ciphertext byte of the first packet changed -/
+theorem flipped_run :
+    Decrypt.run prims s [some { b0 with ct := b0.ct.set 16 66 }, some b1] .eof 1 = ⟨[], some .badTag⟩ := by decide
+
+/-- tampered run 3: the last packet cut off — the first chunk is released (a
+    proper prefix of the honest plan), and the run does NOT end cleanly -/
+theorem truncated_run : Decrypt.run prims s [some b0] .eof 1 = ⟨[65], some .unexpectedEOF⟩ := by decide
+
+end Enc
+
+namespace Sig
+open AuthSig
+set_option maxRecDepth 100000
+
+def s : Sign.State := ⟨v2, hh, prims.sigPub seed⟩
+
+def e0 : Event := ⟨hh, plan⟩
+
+/-- the packet the honest signer makes for chunk `k` -/
+def pkt (k : Nat) (c : Bytes) (f : Bool) : SigBlock :=
+  ⟨prims.sign seed (Gen.c_sp_signatureAttachedString ++ prims.hash (honestHashed v2 e0 k c f)), c, f⟩
+
+def b0 : SigBlock := pkt 0 [65] false
+def b1 : SigBlock := pkt 1 [66] true
+def items : List (Option SigBlock) := [some b0, some b1]
+
+theorem honest_run : Sign.run prims s items .eof 1 = ⟨[65, 66], none⟩ := by decide
+
+/-- **Non-triviality (C06).** -/
+theorem honest_not_break : ¬ BreakIn prims s [e0] items := by
+  rintro (⟨i, b, ⟨hi, -⟩, -, -, hnot⟩ | ⟨i, b, ⟨hi, -⟩, -, e, he, k, c', f', hk, hne, heq⟩)
+  · rcases i with _ | _ | i
+    · simp only [items, List.getElem?_cons_zero, Option.some.injEq] at hi
+      subst hi
+      exact hnot ⟨e0, List.mem_singleton.2 rfl, 0, [65], false, rfl, by decide⟩
+    · simp only [items, List.getElem?_cons_succ, List.getElem?_cons_zero, Option.some.injEq] at hi
+      subst hi
+      exact hnot ⟨e0, List.mem_singleton.2 rfl, 1, [66], true, rfl, by decide⟩
+    · simp [items] at hi
+  · have he0 : e = e0 := List.mem_singleton.1 he
+    subst he0
+    rcases i with _ | _ | i
+    · simp only [items, List.getElem?_cons_zero, Option.some.injEq] at hi
+      subst hi
+      rcases k with _ | _ | k
+      · simp only [e0, plan, List.getElem?_cons_zero, Option.some.injEq, Prod.mk.injEq] at hk
+        obtain ⟨rfl, rfl⟩ := hk
+        exact hne (by decide)
+      · simp only [e0, plan, List.getElem?_cons_succ, List.getElem?_cons_zero, Option.some.injEq, Prod.mk.injEq] at hk
+        obtain ⟨rfl, rfl⟩ := hk
+        exact absurd heq (by decide)
+      · simp [e0, plan] at hk
+    · simp only [items, List.getElem?_cons_succ, List.getElem?_cons_zero, Option.some.injEq] at hi
+      subst hi
+      rcases k with _ | _ | k
+      · simp only [e0, plan, List.getElem?_cons_zero, Option.some.injEq, Prod.mk.injEq] at hk
+        obtain ⟨rfl, rfl⟩ := hk
+        exact absurd heq (by decide)
+      · simp only [e0, plan, List.getElem?_cons_succ, List.getElem?_cons_zero, Option.some.injEq, Prod.mk.injEq] at hk
+        obtain ⟨rfl, rfl⟩ := hk
+        exact hne (by decide)
+      · simp [e0, plan] at hk
+    · simp [items] at hi
+
+theorem swapped_run : Sign.run prims s [some b1, some b0] .eof 1 = ⟨[], some .badSignature⟩ := by decide
+
+theorem altered_run :
+    Sign.run prims s [some { b0 with chunk := [67] }, some b1] .eof 1 = ⟨[], some .badSignature⟩ := by decide
+
+theorem truncated_run : Sign.run prims s [some b0] .eof 1 = ⟨[65], some .unexpectedEOF⟩ := by decide
+
+end Sig
+
+namespace Sc
+open AuthSc
+set_option maxRecDepth 100000
+
+def spk : Bytes := prims.sigPub seed
+
+def s : Signcrypt.State := ⟨pk, hh, some spk⟩
+
+def e0 : Event := ⟨hh, plan⟩
+
+/-- the packet the honest sender makes for chunk `k` -/
+def pkt (k : Nat) (c : Bytes) (f : Bool) : SigncryptBlock :=
+  ⟨prims.sbSeal pk (Nonce.chunkSigncryption hh f k)
+     (prims.sign seed (signcryptionSignatureInput prims hh (Nonce.chunkSigncryption hh f k) f c) ++ c), f⟩
+
+def b0 : SigncryptBlock := pkt 0 [65] false
+def b1 : SigncryptBlock := pkt 1 [66] true
+def items : List (Option SigncryptBlock) := [some b0, some b1]
+
+theorem honest_run : Signcrypt.run prims s items .eof 1 = ⟨[65, 66], none⟩ := by decide
+
+/-- **Non-triviality (C04).** -/
+theorem honest_not_break : ¬ BreakIn prims s spk [e0] items := by
+  have a0 : Sc.accept prims s b0 1 = some [65] := by decide
+  have a1 : Sc.accept prims s b1 2 = some [66] := by decide
+  rintro (⟨i, b, c, sig, -, ⟨hi, -⟩, hacc, -, -, -, hnot⟩ | ⟨i, b, c, ⟨hi, -⟩, hacc, e, he, -, c', hk, hne, -⟩)
+  · rcases i with _ | _ | i
+    · simp only [items, List.getElem?_cons_zero, Option.some.injEq] at hi
+      subst hi
+      rw [a0] at hacc
+      cases hacc
+      exact hnot ⟨e0, List.mem_singleton.2 rfl, 0, [65], false, rfl, by decide⟩
+    · simp only [items, List.getElem?_cons_succ, List.getElem?_cons_zero, Option.some.injEq] at hi
+      subst hi
+      rw [a1] at hacc
+      cases hacc
+      exact hnot ⟨e0, List.mem_singleton.2 rfl, 1, [66], true, rfl, by decide⟩
+    · simp [items] at hi
+  · have he0 : e = e0 := List.mem_singleton.1 he
+    subst he0
+    rcases i with _ | _ | i
+    · simp only [items, List.getElem?_cons_zero, Option.some.injEq] at hi
+      subst hi
+      rw [a0] at hacc
+      cases hacc
+      simp only [e0, plan, List.getElem?_cons_zero, Option.some.injEq, Prod.mk.injEq] at hk
+      exact hne hk.1
+    · simp only [items, List.getElem?_cons_succ, List.getElem?_cons_zero, Option.some.injEq] at hi
+      subst hi
+      rw [a1] at hacc
+      cases hacc
+      simp only [e0, plan, List.getElem?_cons_succ, List.getElem?_cons_zero, Option.some.injEq, Prod.mk.injEq] at hk
+      exact hne hk.1
+    · simp [items] at hi
+
+theorem swapped_run : (Signcrypt.run prims s [some b1, some b0] .eof 1).bytes = [] ∧
+    (Signcrypt.run prims s [some b1, some b0] .eof 1).err ≠ none := by decide
+
+/-- tampered run 2: one byte of the (signed) chunk inside the ciphertext changed -/
+theorem altered_run :
+    Signcrypt.run prims s [some { b0 with ct := b0.ct.set 80 67 }, some b1] .eof 1 = ⟨[], some .badSignature⟩ := by
+  decide
+
+theorem truncated_run : Signcrypt.run prims s [some b0] .eof 1 = ⟨[65], some .unexpectedEOF⟩ := by decide
+
+end Sc
+
+/-! ### … and not always false: a run for which the break is the only true disjunct
+
+  With `Toy.prims` (whose HMAC ignores the message and whose secretbox tag
+  ignores the chunk counter) the swapped message is accepted.  The reduction,
+  applied to that run, yields `BreakIn` — the first two disjuncts are refuted
+  by evaluation. -/
+namespace ToyEnc
+open AuthEnc
+set_option maxRecDepth 100000
+
+def s : Decrypt.State :=
+  { version := v2, payloadKey := pk, headerHash := hh, macKey := mk, position := 0, mki := default }
+
+def e0 : Event := ⟨hh, pk, mk, plan⟩
+
+def pkt (k : Nat) (c : Bytes) (f : Bool) : EncBlock :=
+  ⟨[payloadAuthenticator Toy.prims mk (Toy.prims.hash (honestInput Toy.prims v2 e0 k c f))],
+   Toy.prims.sbSeal pk (Nonce.chunkSecretBox k) c, f⟩
+
+def b0 : EncBlock := pkt 0 [65] false
+def b1 : EncBlock := pkt 1 [66] true
+
+/-- with `Toy.prims` the SWAPPED message is accepted: the second chunk is
+    released as if it were the whole message -/
+theorem swapped_run : Decrypt.run Toy.prims s [some b1, some b0] .eof 1 = ⟨[66], some .trailingGarbage⟩ := by
+  decide
+
+/-- … so, by the reduction, that run exhibits a break of `Toy.prims` -/
+theorem swapped_break : BreakIn Toy.prims s [e0] [some b1, some b0] := by
+  have h := authentic_or_break Toy.prims Toy.lawful s (Or.inr rfl) (by decide) [e0]
+    (by intro e he; rw [List.mem_singleton.1 he]; decide)
+    (by intro e he _; rw [List.mem_singleton.1 he]; exact ⟨⟨[([65], false)], [66], rfl, by simp⟩, by decide⟩)
+    (by intro h1; exact absurd h1 (by decide))
+    (by intro e he _; rw [List.mem_singleton.1 he]; rfl)
+    (by intro e he e' he' _ _; rw [List.mem_singleton.1 he, List.mem_singleton.1 he'])
+    [some b1, some b0] .eof
+  simp only [swapped_run] at h
+  rcases h with ⟨h, -⟩ | ⟨e, he, -, m, hm, hb, -⟩ | h
+  · cases h
+  · rw [List.mem_singleton.1 he] at hm hb
+    have : m = 0 ∨ m = 1 ∨ m = 2 := by
+      have : e0.plan.length = 2 := rfl
+      omega
+    rcases this with rfl | rfl | rfl <;> exact absurd hb (by decide)
+  · exact h
+
+end ToyEnc
+
+end Demo
 
 end Saltpack.Proofs
